@@ -11,16 +11,15 @@ Theorem C15_same_key_equivalence : forall a b c,
   (same_key_spec a b = true -> same_key_spec b c = true -> same_key_spec a c = true).
 Proof. intros a b c. split; [apply spec_refl|]. split; [apply spec_sym|apply spec_trans]. Qed.
 Print Assumptions C15_same_key_equivalence.
-(* compare.same_key as written decides it, except for a boolean against a number.
-   FULL STATEMENT: forall a b, wfk a = true -> wfk b = true -> same_key_impl a b = same_key_spec a b. *)
-Theorem C15_same_key_code_partial : forall a b, wfk a = true -> wfk b = true -> bool_vs_number a b = false ->
+(* compare.same_key as written decides it on all well-formed keys (after the repair of C15-key-boolean-integer) *)
+Theorem C15_same_key_code : forall a b, wfk a = true -> wfk b = true ->
   same_key_impl a b = same_key_spec a b.
 Proof. exact impl_eq_spec. Qed.
-Print Assumptions C15_same_key_code_partial.
-(* Python's True == 1: known finding C15-key-boolean-integer *)
-Theorem C15_same_key_boolean_number_refuted : exists a b, wfk a = true /\ wfk b = true /\ same_key_impl a b <> same_key_spec a b.
+Print Assumptions C15_same_key_code.
+(* before the repair Python's True == 1 made true() and 1 the same key *)
+Theorem C15_same_key_old_boolean_number_refuted : exists a b, wfk a = true /\ wfk b = true /\ same_key_old_bool a b <> same_key_spec a b.
 Proof. exists (KBool true), (KN TInteger (NFin 1 1)). repeat split; discriminate. Qed.
-Print Assumptions C15_same_key_boolean_number_refuted.
+Print Assumptions C15_same_key_old_boolean_number_refuted.
 (* before the repair hexBinary and base64Binary keys with the same octets were the same key *)
 Theorem C15_same_key_old_binary_refuted : exists a b, same_key_old_bin a b <> same_key_spec a b.
 Proof. exists (KBin true 10), (KBin false 10). discriminate. Qed.
